@@ -3,13 +3,215 @@
 package main
 
 import (
+	"encoding/binary"
+	"fmt"
 	"os"
 	"time"
 
+	"github.com/linuxboot/fiano/pkg/uefi"
 	. "verifharness/common"
 	"verifharness/uefigen"
 	"verifharness/uefiops"
 )
+
+// ---- p_bounded: the "time and memory bounded by the input size plus the data it actually
+// decompresses" clause of C05, independent of the wall clock.
+//
+// Every node of a tree that parsing returns owns bytes of its own: a section at least its 4-byte
+// header, a file 24, a volume 64, an NVAR entry 10, an ME partition entry 32, a padding at least
+// one byte between two volumes of 64; and by C04 the children of a node tile (a part of) their
+// parent without overlap, the children of a compressed section tiling its decoded payload.  Hence
+//
+//	nodes <= (len(input) + decoded bytes) / 4 + 2        (+2: the root and rounding)
+//
+// for every accepted input.  A parser that hands a child more bytes than its parent owns (so that
+// siblings are parsed twice) breaks this bound exponentially long before the watchdog notices.
+
+type nodeCounter struct {
+	n, limit int
+	decoded  int
+}
+
+func (c *nodeCounter) Run(f uefi.Firmware) error { return f.Apply(c) }
+func (c *nodeCounter) Visit(f uefi.Firmware) error {
+	c.n++
+	if c.n > c.limit {
+		return fmt.Errorf("too many nodes")
+	}
+	if s, ok := f.(*uefi.Section); ok && s.TypeSpecific != nil {
+		if gd, ok := s.TypeSpecific.Header.(*uefi.SectionGUIDDefined); ok && gd.Compression != "" && gd.Compression != "UNKNOWN" {
+			for _, e := range s.Encapsulated {
+				c.decoded += (len(e.Value.Buf()) + 3) &^ 3
+			}
+		}
+	}
+	return f.ApplyChildren(c)
+}
+
+func PBounded(args []string) string {
+	img := UnH(args[0])
+	uefiops.Reset()
+	root, err := uefi.Parse(img)
+	if err != nil {
+		return "ok" // an error is a bounded answer
+	}
+	// first pass: decoded bytes (bounded walk: stop as soon as even a generous bound is exceeded)
+	c := &nodeCounter{limit: 4*len(img) + 1024}
+	if err := c.Run(root); err != nil && c.n <= c.limit {
+		return "skip"
+	}
+	bound := (len(img)+c.decoded)/4 + 2
+	if c.n > bound {
+		more := ""
+		if c.n > c.limit {
+			more = "+"
+		}
+		return fmt.Sprintf("FAIL tree-not-bounded-by-input nodes=%d%s bound=%d len=%d decoded=%d", c.n, more, bound, len(img), c.decoded)
+	}
+	return "ok"
+}
+
+// ---- overlap shapes ("zip bomb by overlap"): structures whose size fields reach beyond their
+// parent, into the siblings that follow.  The pristine parser rejects them (or clamps them);
+// a parser that accepts them parses the overlapped siblings once per overlapping ancestor.
+
+const (
+	gadget = 100 // section header 4 + volume header 72 + file header 24
+	fvHdr  = 72
+)
+
+func putFV(b []byte, length uint64) {
+	copy(b[16:32], uefi.FFS2[:])
+	binary.LittleEndian.PutUint64(b[32:], length)
+	copy(b[40:44], "_FVH")
+	binary.LittleEndian.PutUint32(b[44:], 0x0004FEFF) // erase polarity 1
+	binary.LittleEndian.PutUint16(b[48:], fvHdr)
+	b[55] = 2
+	binary.LittleEndian.PutUint32(b[56:], 1)
+	binary.LittleEndian.PutUint32(b[60:], uint32(length))
+	var sum uint16
+	for i := 0; i < fvHdr; i += 2 {
+		if i != 50 {
+			sum += binary.LittleEndian.Uint16(b[i:])
+		}
+	}
+	binary.LittleEndian.PutUint16(b[50:], -sum)
+}
+
+func putFile(b []byte, size uint64, id byte, ftype byte) {
+	for i := 0; i < 16; i++ {
+		b[i] = id
+	}
+	b[17] = 0xAA
+	b[18] = ftype
+	b[20], b[21], b[22] = byte(size), byte(size>>8), byte(size>>16)
+	b[23] = 0xF8
+}
+
+func put3(b []byte, v int) { b[0], b[1], b[2] = byte(v), byte(v>>8), byte(v>>16) }
+
+// overlapImage builds one volume with one freeform file holding a chain of [levels] FV-image
+// sections of 100 bytes, then a raw section.  shape selects which size field overreaches:
+//
+//	0  nothing (well-formed: every nested volume exactly fills its section)
+//	1  nested volume Length reaches the end of the image
+//	2  nested volume Length reaches the end of the enclosing file's next sibling section
+//	3  nested volume exact, but its file's size reaches the end of the image
+//	4  FV-image section size field reaches the end of the file (sections overlap their successors)
+//	5  as 1, and the last section's size field reaches beyond the file
+func overlapImage(levels, shape int) []byte {
+	total := fvHdr + 24 + levels*gadget + 8
+	img := make([]byte, total)
+	for i := range img {
+		img[i] = 0
+	}
+	putFV(img, uint64(total))
+	putFile(img[fvHdr:], uint64(total-fvHdr), 0x11, 0x02)
+	p := fvHdr + 24
+	for l := 0; l < levels; l++ {
+		g := img[p:]
+		secSize := gadget
+		fvLen := uint64(gadget - 4)
+		fileSize := uint64(24)
+		switch shape {
+		case 1, 5:
+			fvLen = uint64(total - (p + 4))
+			fileSize = uint64(total - (p + 4 + fvHdr))
+		case 2:
+			fvLen = uint64(gadget - 4 + gadget)
+			if p+4+int(fvLen) > total {
+				fvLen = uint64(total - (p + 4))
+			}
+			fileSize = fvLen - fvHdr
+		case 3:
+			fileSize = uint64(total - (p + 4 + fvHdr))
+		case 4:
+			secSize = total - p
+			fvLen = uint64(secSize - 4)
+			fileSize = fvLen - fvHdr
+		}
+		put3(g, secSize)
+		g[3] = byte(uefi.SectionTypeFirmwareVolumeImage)
+		putFV(g[4:], fvLen)
+		putFile(g[4+fvHdr:], fileSize, byte(0x20+l), 0x02)
+		p += gadget
+	}
+	put3(img[p:], 8)
+	if shape == 5 {
+		put3(img[p:], 0x1000)
+	}
+	img[p+3] = byte(uefi.SectionTypeRaw)
+	return img
+}
+
+// nestedImage: [levels] volumes properly nested (volume > file > FV-image section > volume ...);
+// over > 0 makes every inner volume claim [over] bytes more than its section holds.
+func nestedImage(levels int, over int) []byte {
+	inner := []byte{8, 0, 0, byte(uefi.SectionTypeRaw), 1, 2, 3, 4}
+	for l := 0; l < levels; l++ {
+		// file around the sections so far, volume around the file, FV-image section around the volume
+		vol := make([]byte, fvHdr+24+len(inner))
+		copy(vol[fvHdr+24:], inner)
+		putFile(vol[fvHdr:], uint64(24+len(inner)), byte(0x40+l), 0x02)
+		claim := len(vol)
+		if l < levels-1 {
+			claim += over
+		}
+		putFV(vol, uint64(claim))
+		if l == levels-1 {
+			return vol
+		}
+		sec := make([]byte, 4+len(vol))
+		put3(sec, len(sec))
+		sec[3] = byte(uefi.SectionTypeFirmwareVolumeImage)
+		copy(sec[4:], vol)
+		// a sibling after the section, for an overreaching volume to swallow
+		inner = append(sec, []byte{8, 0, 0, byte(uefi.SectionTypeRaw), 9, 9, 9, 9}...)
+	}
+	return inner
+}
+
+func genOverlap(tier string, modelMax int, emit Emit) {
+	one := func(img []byte) {
+		emit("P", "p_total", H(img), "-")
+		emit("P", "p_bounded", H(img))
+		if len(img) <= modelMax {
+			emit("C", "saveclass", H(img))
+		}
+	}
+	for levels := 1; levels <= 12; levels++ {
+		for shape := 0; shape <= 5; shape++ {
+			one(overlapImage(levels, shape))
+		}
+		one(nestedImage(levels, 0))
+		one(nestedImage(levels, 8))
+		one(nestedImage(levels, 16))
+	}
+	// long chains: only the watchdog and the memory ceiling can answer these if they are accepted
+	for _, levels := range []int{24, 40} {
+		one(overlapImage(levels, 1))
+	}
+}
 
 func gen(r *Rng, tier string, emit Emit) {
 	n := 7
@@ -34,10 +236,12 @@ func gen(r *Rng, tier string, emit Emit) {
 			x = "x" // also run the extract visitor (file-system heavy)
 		}
 		emit("P", "p_total", H(b), x)
+		emit("P", "p_bounded", H(b))
 		if len(b) <= modelMax && len(b) > 0 {
 			emit("C", "saveclass", H(b))
 		}
 	}
+	genOverlap(tier, modelMax, emit)
 	// ME flash partition tables: valid seeds and boundary values of every header field
 	for it := 0; it < 6; it++ {
 		rr := r.Fork(uint64(1000 + it))
@@ -58,10 +262,12 @@ func gen(r *Rng, tier string, emit Emit) {
 			continue
 		}
 		emit("P", "p_total", H(img))
+		emit("P", "p_bounded", H(img))
 		for _, f := range fields {
 			for _, v := range uefigen.BoundaryValues(f) {
 				m := uefigen.Mutate(img, f, v)
 				emit("P", "p_total", H(m), "x")
+				emit("P", "p_bounded", H(m))
 				emit("C", "saveclass", H(m))
 			}
 		}
@@ -75,6 +281,7 @@ func gen(r *Rng, tier string, emit Emit) {
 				m = m[:rr.Intn(len(m)+1)]
 			}
 			emit("P", "p_total", H(m))
+			emit("P", "p_bounded", H(m))
 			emit("C", "saveclass", H(m))
 		}
 	}
@@ -84,5 +291,6 @@ func main() {
 	CaseTimeout = 5 * time.Second
 	MemLimit = 2 << 30
 	uefiops.RegisterAll()
+	Register("p_bounded", PBounded)
 	Main(gen)
 }
